@@ -104,7 +104,7 @@ CHECKS = {
                  "negative integer or a multi-byte varint. payload lengths: one case per (page size, length, cell kind); non-trivial = payload not wholly local. Distinct = fingerprint / key."),
         "assumptions": ["system libsqlite3 (3.40.1) validates the builder", "usable size == page size (reserved space is refused by sqlittle, see C15)"],
         "min_nontrivial": {"quick": 1500, "thorough": 8000},
-        "required_classes": ["rec:overflow=true", "rec:widehdr=true", "rec:depth=3", "rec:idxdepth=2", "rec:ps=65536", "lens:ps=512:index-interior", "lens:ps=65536:table-leaf", "rec:sqlite-validated", "rec:in-header-size-stale=true", "rec:text-not-utf8=true", "rec:autovacuum=1", "rec:autovacuum=2", "rec:autovacuum-beyond-second-map-page=true"],
+        "required_classes": ["rec:overflow=true", "rec:widehdr=true", "rec:depth=3", "rec:idxdepth=2", "rec:ps=65536", "lens:ps=512:index-interior", "lens:ps=65536:table-leaf", "rec:sqlite-validated", "rec:in-header-size-stale=true", "rec:text-not-utf8=true", "rec:autovacuum=1", "rec:autovacuum=2", "rec:autovacuum-beyond-second-map-page=true", "rec:page1-interior-without-key=true"],
         "timeout": {"quick": 300, "thorough": 1800},
         "jobs": [
             job("records", "c14", ["TestC14Records"], 1200, 12000, 3, 12),
@@ -423,6 +423,7 @@ CHECKS = {
         "timeout": {"quick": 500, "thorough": 2400},
         "jobs": [
             job("concurrent", "c20", ["TestC20Concurrent"], 40, 500, 3, 8, race=True, shrinktime="5s"),
+            job("storm", "c20", ["TestC20OpenStorm"], 8, 80, 1, 2, shrinktime="5s"),
         ],
     },
 }
